@@ -43,6 +43,12 @@ pub enum ActK {
     SetVar(usize, i64),
     IncVar(usize),
     Activate(&'static str),
+    /// v<k> = v<k> * 2 (leaves the i64 range after 63 firings from 1)
+    DoubleVar(usize),
+    /// v<k> = v<k> - 1
+    DecVar(usize),
+    /// v<a> = 7 % v<b> (the divisor may have been counted down to zero)
+    ModBy(usize, usize),
     /// an action that returns an error when it runs (its right-hand side names a fact that does not exist)
     Fail,
     /// the rule has no actions at all (not even the recording append): `then ;`
@@ -102,6 +108,9 @@ impl RSpec {
             match a {
                 ActK::Nothing | ActK::Silent => {}
                 ActK::Fail => actions.push(ActionType::Set { field: "Total".to_string(), value: Value::Expression("NoSuchFact + 1".to_string()) }),
+                ActK::DoubleVar(k) => actions.push(ActionType::Set { field: format!("v{}", k), value: Value::Expression(format!("v{} * 2", k)) }),
+                ActK::DecVar(k) => actions.push(ActionType::Set { field: format!("v{}", k), value: Value::Expression(format!("v{} - 1", k)) }),
+                ActK::ModBy(a, b) => actions.push(ActionType::Set { field: format!("v{}", a), value: Value::Expression(format!("7 % v{}", b)) }),
                 ActK::SetVar(k, c) => actions.push(ActionType::Set { field: format!("v{}", k), value: Value::Integer(c) }),
                 ActK::IncVar(k) => actions.push(ActionType::Set { field: format!("v{}", k), value: Value::Expression(format!("v{} + 1", k)) }),
                 ActK::Activate(g) => actions.push(ActionType::ActivateAgendaGroup { group: g.to_string() }),
@@ -165,6 +174,9 @@ impl RSpec {
             match a {
                 ActK::Nothing | ActK::Silent => {}
                 ActK::Fail => acts.push_str(" Total = NoSuchFact + 1;"),
+                ActK::DoubleVar(k) => acts.push_str(&format!(" v{} = v{} * 2;", k, k)),
+                ActK::DecVar(k) => acts.push_str(&format!(" v{} = v{} - 1;", k, k)),
+                ActK::ModBy(a, b) => acts.push_str(&format!(" v{} = 7 % v{};", a, b)),
                 ActK::SetVar(k, c) => acts.push_str(&format!(" v{} = {};", k, c)),
                 ActK::IncVar(k) => acts.push_str(&format!(" v{} = v{} + 1;", k, k)),
                 ActK::Activate(g) => acts.push_str(&format!(" ActivateAgendaGroup(\"{}\");", g)),
@@ -275,6 +287,19 @@ pub fn ref_forward(rules: &[RSpec], em: &mut EModel, vars: &Vars, focus0: &str, 
                     ActK::Nothing | ActK::Silent => {}
                     // the engine returns the error to the caller: nothing is claimed about this call
                     ActK::Fail => out.undefined = true,
+                    // values are not compared beyond what the conditions of the family read
+                    ActK::DoubleVar(k) => {
+                        let n = out.vars.get(k).saturating_mul(2);
+                        out.vars.v.insert(k, n);
+                    }
+                    ActK::DecVar(k) => {
+                        let n = out.vars.get(k) - 1;
+                        out.vars.v.insert(k, n);
+                    }
+                    ActK::ModBy(a, b) => {
+                        let d = out.vars.get(b);
+                        out.vars.v.insert(a, if d == 0 { 0 } else { 7 % d });
+                    }
                     ActK::SetVar(k, c) => {
                         out.vars.v.insert(k, c);
                     }
@@ -520,6 +545,9 @@ fn spec_json(r: &RSpec) -> serde_json::Value {
         ActK::IncVar(k) => json!({"inc": k}),
         ActK::Activate(g) => json!({"activate": g}),
         ActK::Fail => json!({"fail": true}),
+        ActK::DoubleVar(k) => json!({"double": k}),
+        ActK::DecVar(k) => json!({"dec": k}),
+        ActK::ModBy(a, b) => json!({"mod": [a, b]}),
         ActK::Silent => json!({"silent": true}),
     };
     json!({"name": r.name, "salience": r.salience, "enabled": r.enabled, "no_loop": r.no_loop, "loa": r.loa, "agenda": r.agenda, "actgrp": r.actgrp,
@@ -537,6 +565,12 @@ fn spec_from_json(v: &serde_json::Value) -> RSpec {
             ActK::IncVar(k.as_u64().unwrap_or(0) as usize)
         } else if let Some(g) = a.get("activate") {
             ActK::Activate(st(g.as_str()).unwrap_or("G"))
+        } else if let Some(k) = a.get("double") {
+            ActK::DoubleVar(k.as_u64().unwrap_or(0) as usize)
+        } else if let Some(k) = a.get("dec") {
+            ActK::DecVar(k.as_u64().unwrap_or(0) as usize)
+        } else if let Some(m) = a.get("mod") {
+            ActK::ModBy(m[0].as_u64().unwrap_or(0) as usize, m[1].as_u64().unwrap_or(1) as usize)
         } else if a.get("fail").is_some() {
             ActK::Fail
         } else if a.get("silent").is_some() {
@@ -1077,6 +1111,9 @@ pub fn run_dataflow(opts: &Opts) -> Vec<Report> {
             let grl = format!("rule \"R1\" salience {} no-loop {{ when F.i == 5 then F.i = 6; }}\nrule \"R2\" salience {} no-loop {{ when F.i == 5 then Out.hit = 1; }}", s1, s2);
             let r2_fires = i0 == 5 && s2 > s1;
             cases.push((grl, vec![("F.i".into(), V::Int(i0))], vec![("F.i", if i0 == 5 { 6.0 } else { i0 as f64 }), ("Out.hit", if r2_fires { 1.0 } else { -1.0 })], 3));
+            // the assignment target extends the name of a scalar fact: the value is stored and read back all the same
+            let grl = format!("rule \"R1\" salience {} no-loop {{ when F.i >= 5 then S.level = F.i; }}\nrule \"R2\" salience {} no-loop {{ when S.level == {} then Out.hit = 1; }}", s1.max(s2) + 1, s2, i0);
+            cases.push((grl, vec![("F.i".into(), V::Int(i0)), ("S".into(), V::Int(10))], vec![("Out.hit", 1.0)], 3));
             // three rules, chain across passes (reverse salience): needs 3 passes
             let grl = format!("rule \"R3\" salience 30 no-loop {{ when F.b == 2 then Out.c = F.b + F.a; }}\nrule \"R2\" salience 20 no-loop {{ when F.a == 1 then F.b = F.a + 1; }}\nrule \"R1\" salience 10 no-loop {{ when F.i == {} then F.a = 1; }}", i0);
             cases.push((grl, vec![("F.i".into(), V::Int(i0)), ("F.a".into(), V::Int(0)), ("F.b".into(), V::Int(0))], vec![("F.a", 1.0), ("F.b", 2.0), ("Out.c", 3.0)], 5));
@@ -1106,7 +1143,7 @@ pub fn run_dataflow(opts: &Opts) -> Vec<Report> {
     }
     rep.count("nontrivial", nt.len() as u64);
     rep.sample(json!({"grl": "rule \"R1\" salience 10 no-loop { when F.i == 5 then F.j = F.i + 1; } rule \"R2\" salience 5 no-loop { when F.j == 6 then Out.hit = 1; }"}));
-    rep.bound = "5 two-/three-rule data-flow templates (rule feeds a later condition, rule changes what a later right-hand side reads, self-referencing assignment, rule falsifies a later condition within the pass, 3-pass chain in reverse salience) x 2 start values x 3 salience orders x nested/flat layout x {execute, execute_with_callback}".into();
+    rep.bound = "6 two-/three-rule data-flow templates (assignment below the name of a scalar fact, rule feeds a later condition, rule changes what a later right-hand side reads, self-referencing assignment, rule falsifies a later condition within the pass, 3-pass chain in reverse salience) x 2 start values x 3 salience orders x nested/flat layout x {execute, execute_with_callback}".into();
     rep.wall_s = t0.elapsed().as_secs_f64();
     vec![rep]
 }
